@@ -112,3 +112,4 @@ def class_name_prop(eng, cls):
             return [(p, NEXT)]
         return orig(p, obj, name, val, node)
     eng.setattr_extra = setattr_extra
+
